@@ -194,6 +194,18 @@ def _run(cmd, txt, timeout):
     return out, time.time() - t0
 
 
+_CVC5_RESERVED = {'fp', 'sin', 'cos', 'tan', 'exp', 'sqrt', 'pi', 'abs', 'csc', 'sec', 'cot', 'arcsin', 'arccos', 'arctan', 'set', 'bag', 'seq',
+                  'is_int', 'to_int', 'to_real', 'divisible', 'iand', 'pow', 'pow2', 'real', 'int', 'choice', 'witness', 'tuple', 'table', 'rel'}
+
+
+def _cvc5_names(txt):
+    """cvc5 refuses declarations that shadow its theory symbols (`fp`, `sin`, ...): rename such user symbols for that back end"""
+    clash = [n for n in set(re.findall(r'\(declare-(?:fun|const) ([^\s()|]+)', txt)) if n in _CVC5_RESERVED]
+    for n in clash:
+        txt = re.sub(r'(?<![\w!.$%&*+/<=>?@^~|-])' + re.escape(n) + r'(?![\w!.$%&*+/<=>?@^~|-])', n + '_vf', txt)
+    return txt
+
+
 def _first(out):
     for line in out.splitlines():
         line = line.strip()
@@ -216,7 +228,7 @@ def solve_smt2(txt, timeout=30, backends=('z3new', 'z3old', 'cvc5'), want_model=
         elif be == 'z3old' and os.path.exists(Z3_OLD):
             out, dt = _run([Z3_OLD, f'-T:{int(timeout)}'], body + tail, timeout)
         elif be == 'cvc5' and os.path.exists(CVC5):
-            t = txt
+            t = _cvc5_names(txt)
             if logic is None:
                 t = '(set-logic ALL)\n' + t
             opts = [CVC5, f'--tlimit={int(timeout * 1000)}', '--produce-models'] if want_model else [CVC5, f'--tlimit={int(timeout * 1000)}']
@@ -353,6 +365,42 @@ def discharge(obls, jobs=None, log=None):
             if log:
                 log(o)
     return obls
+
+
+def cross_check(obls, jobs=None, timeout=20):
+    """thorough tier: every SMT obligation that one back end discharged is put to the other back ends as well.  A second `unsat`
+    confirms it; `unknown` leaves it as it is; a `sat` is a disagreement between solvers (the obligation becomes undecided)."""
+    jobs = jobs or max(2, min(16, (os.cpu_count() or 4)))
+    todo = [o for o in obls if o.status == 'discharged' and o.kind == 'smt' and (o.backend or '').split('/')[0] in ('z3new', 'z3old', 'cvc5')]
+    texts = {}
+    for o in todo:
+        try:
+            texts[id(o)] = o.smt2_abstract() if 'uf-abstracted' in (o.backend or '') else o.smt2()
+        except Exception:  # noqa: BLE001
+            texts[id(o)] = None
+
+    def work(o):
+        txt = texts[id(o)]
+        if txt is None:
+            return o
+        first = (o.backend or '').split('/')[0]
+        others = tuple(b for b in ('cvc5', 'z3old', 'z3new') if b != first)
+        verdicts = {}
+        for be in others:
+            v, _, _, secs, _ = solve_smt2(txt, timeout=timeout, backends=(be,), want_model=False)
+            verdicts[be] = v
+            if v in ('sat', 'unsat'):
+                break
+        o.meta['second_solver'] = verdicts
+        if 'sat' in verdicts.values():
+            o.status, o.detail = 'undecided', f'solver disagreement: {first} unsat, {verdicts}'
+        return o
+    with ThreadPoolExecutor(max_workers=jobs) as ex:
+        list(ex.map(work, todo))
+    conf = sum(1 for o in todo if 'unsat' in o.meta.get('second_solver', {}).values())
+    return {'cross_checked': len(todo), 'confirmed_by_a_second_solver': conf,
+            'second_solver_unknown': sum(1 for o in todo if o.status == 'discharged') - conf,
+            'disagreements': sum(1 for o in todo if o.status == 'undecided')}
 
 
 def quick_check(hyps, goal, timeout_ms=10000):
